@@ -29,7 +29,8 @@ pub struct LuaTypeIndex {
     file_using_namespace: HashMap<FileId, Vec<String>>,
     file_types: HashMap<FileId, Vec<LuaTypeDeclId>>,
     full_name_type_map: HashMap<LuaTypeDeclId, LuaTypeDecl>,
-    generic_params: HashMap<LuaTypeDeclId, Vec<GenericParam>>,
+    // the generic header of a type, per declaring file that carries one (ordered by file id)
+    generic_params: HashMap<LuaTypeDeclId, Vec<InFiled<Vec<GenericParam>>>>,
     supers: HashMap<LuaTypeDeclId, Vec<InFiled<LuaType>>>,
     types: HashMap<LuaTypeOwner, LuaTypeCache>,
     in_filed_type_owner: HashMap<FileId, HashSet<LuaTypeOwner>>,
@@ -313,12 +314,26 @@ impl LuaTypeIndex {
             .and_then(|decl_id| self.full_name_type_map.get(decl_id))
     }
 
-    pub fn add_generic_params(&mut self, decl_id: LuaTypeDeclId, params: Vec<GenericParam>) {
-        self.generic_params.insert(decl_id, params);
+    pub fn add_generic_params(
+        &mut self,
+        decl_id: LuaTypeDeclId,
+        file_id: FileId,
+        params: Vec<GenericParam>,
+    ) {
+        // a header belongs to the file that wrote it: it goes away with that file (and only with it), and when
+        // several files carry one the file with the lowest id decides, whatever the analysis order was
+        let headers = self.generic_params.entry(decl_id).or_default();
+        match headers.binary_search_by_key(&file_id, |it| it.file_id) {
+            Ok(at) => headers[at].value = params,
+            Err(at) => headers.insert(at, InFiled::new(file_id, params)),
+        }
     }
 
     pub fn get_generic_params(&self, decl_id: &LuaTypeDeclId) -> Option<&Vec<GenericParam>> {
-        self.generic_params.get(decl_id)
+        self.generic_params
+            .get(decl_id)
+            .and_then(|headers| headers.first())
+            .map(|it| &it.value)
     }
 
     pub fn add_super_type(&mut self, decl_id: LuaTypeDeclId, file_id: FileId, super_type: LuaType) {
@@ -554,6 +569,13 @@ impl LuaIndex for LuaTypeIndex {
                     supers.retain(|s| s.file_id != file_id);
                     if supers.is_empty() {
                         self.supers.remove(&id);
+                    }
+                }
+
+                if let Some(headers) = self.generic_params.get_mut(&id) {
+                    headers.retain(|it| it.file_id != file_id);
+                    if headers.is_empty() {
+                        self.generic_params.remove(&id);
                     }
                 }
 
